@@ -614,8 +614,11 @@ impl<'a, R: Clone> AsyncGlobalCache<'a, R> {
 
                 // Score combines frequency, recency, and age
                 let score = frequency_component * position_weight * age_factor;
+                // `powf` overflows to +inf for a large weight (and inf * 0.0 is NaN for an expired
+                // entry): such entries must stay evictable, or a full cache would grow past its limit
+                let score = if score.is_nan() { 0.0 } else { score };
 
-                if score < best_score {
+                if best_evict_key.is_none() || score < best_score {
                     best_score = score;
                     best_evict_key = Some(evict_key.clone());
                 }
